@@ -206,3 +206,32 @@ Theorem C08_mapor_nk_parked_remove_example :
     mo_state_entries sC 8 = {[20 := {[2 := 2]}; 21 := {[1 := 2]}]}.
 Proof. exact mapor_nk_example_closed. Qed.
 Print Assumptions C08_mapor_nk_parked_remove_example.
+
+(** Map<K1, Map<K2, Orswot>> when no key is ever removed: per-actor delivery suffices for the complete state, merges included; a
+    nested remove that overtakes its add is parked inside the innermost set and travels in merged states (proofs/MapMapOrswotNK.v) *)
+From Crdt Require Import model.Orswot model.Map spec.System spec.OrswotSpec spec.OrswotSystem spec.MapSpec spec.MapSystem spec.MapOrswotSpec spec.MapMapOrswotSpec spec.MapMapOrswotNKSpec proofs.MapMapOrswotNK.
+Theorem C08_map2_nk_any_discipline (adm : adm_t (mop (mop oop))) (mg : Prop) (H : list (oprec (mop (mop oop)))) (s : cmap (cmap orswot)) (K : gset nat) :
+  m2hist_ok_nk H -> (forall K i, adm H K i -> adm_per_actor H K i) ->
+  reach mnew (mapply vo2) (mmerge vo2) adm mg H s K -> s = map2_spec_nk H K.
+Proof. exact (map2_refine_nk_any adm mg H s K). Qed.
+Print Assumptions C08_map2_nk_any_discipline.
+
+Theorem C08_map2_nk_parked_remove_example :
+  exists (H : list (oprec (mop (mop oop)))) (sA sB sC : cmap (cmap orswot)) (KA KB : gset nat),
+    m2hist_ok_nk H /\ length H = 4%nat /\
+    ~ adm_causal H ∅ 1%nat /\
+    m2reach_nk H sA KA /\
+    m2_state_parked sA 7 3 = Some {[ ({[1 := 1]} : gmap N N) := ({[10]} : gset N) ]} /\
+    m2reach_nk H sB KB /\
+    m2_state_entries sB 7 3 = {[10 := {[1 := 1]}]} /\
+    m2reach_nk H sC (KA ∪ KB) /\
+    mmerge vo2 sA sB = sC /\ mmerge vo2 sB sA = sC /\
+    mmerge vo2 sA sB = map2_spec_nk H (KA ∪ KB) /\
+    map2_nk_ok H (KA ∪ KB) (mmerge vo2 sA sB) = true /\
+    map2_nk_ok H KA sA = true /\
+    m2_state_entries sC 7 3 = ∅ /\
+    m2_state_parked sC 7 3 = Some ∅ /\
+    m2_state_entries sC 7 4 = {[21 := {[1 := 2]}]} /\
+    m2_state_entries sC 8 4 = {[20 := {[2 := 2]}]}.
+Proof. exact map2_nk_example_closed. Qed.
+Print Assumptions C08_map2_nk_parked_remove_example.
